@@ -72,7 +72,7 @@ def monitor(l, impl_rows, kv):
         return [] if got == str(exp) else ["compare_layouts(%s, %s) = %s, expected %s" % ("Some" if x else "None", "Some" if y else "None", got, NAMES[exp])]
     exp = G.layout_expected(l)
     if exp is not None and impl_rows.strip() != str(exp):
-        return ["compare_layouts reports %s for a group pair whose expected verdict is %s" % (impl_rows.strip(), exp)]
+        return ["compare_layouts reports %s for a pair whose expected verdict is %s (0 Valid, 1 Invalid, 2 Unknown)" % (impl_rows.strip(), exp)]
     if l.startswith("20 "):
         hdr, a, b = G._split_rows(l)
         if a == b and hdr[1] == hdr[2] and impl_rows.strip() != "0":
